@@ -11,8 +11,180 @@ def flush(local, sc, cfg, hev, wire):
     return
 
 
+def _parse_payload(hexstr, routed):
+    """physical buffer of the traffic harness -> [(uid, header_dest or None, leg, total_bytes)]"""
+    b = bytes.fromhex(hexstr)
+    i, out = 0, []
+    while i < len(b):
+        hd = None
+        tot_hdr = 0
+        if routed:
+            hd = int.from_bytes(b[i + 4:i + 8], "little", signed=True)
+            hsize = int.from_bytes(b[i:i + 4], "little")
+            i += 8
+            tot_hdr = 8
+        if i + 30 > len(b):
+            raise ValueError("truncated message in physical buffer")
+        uid = int.from_bytes(b[i + 2:i + 10], "little")
+        leg = int.from_bytes(b[i + 18:i + 22], "little", signed=True)
+        nblob = int.from_bytes(b[i + 22:i + 30], "little")
+        tot = 30 + nblob
+        if routed and hd != -1 and hsize != tot:
+            raise ValueError(f"header size {hsize} != message bytes {tot} (uid {uid})")
+        out.append((uid, hd, leg, tot + tot_hdr))
+        i += tot
+    if i != len(b):
+        raise ValueError("physical buffer does not end on a message boundary")
+    return out
+
+
 def deliver(local, sc, cfg, hev, wire):
-    return
+    """C01 acceptor: project the run to the labels of YgmVerif.Deliver (async / isend / recv / exec / fwd / recvend)
+    and replay them through the model's step.  Needs the payload bytes of every send (log_bytes=-1)."""
+    n = cfg.n
+    routed = cfg.routing != "NONE"
+    case = {"scenario": sc.to_json(), "config": cfg.to_json()}
+
+    def bad(what):
+        local.corr_failures.append({"relation": "real message movement accepted by YgmVerif.Deliver.step (C01 acceptor)", "what": what, "case": case})
+
+    # index wire isends by log line; physical sends of the async communicator are those followed by a k:fsb hook
+    isend_at = {}
+    for (i, kind, d) in wire:
+        if kind == "isend":
+            isend_at[i] = d
+    last_isend = {}
+    events = sorted([(ev.t, "h", ev) for ev in hev] + [(i, "w", (kind, d)) for (i, kind, d) in wire if kind == "isend"], key=lambda x: x[0])
+    # X uid of every ex window
+    exuid = {}
+    stack = {r: [] for r in range(n)}
+    for ev in hev:
+        if ev.kind == "k:ex+":
+            stack[ev.r].append(ev.t)
+        elif ev.kind == "X" and stack[ev.r]:
+            exuid.setdefault(stack[ev.r][-1], int(ev.f[0]))
+        elif ev.kind == "k:ex-" and stack[ev.r]:
+            stack[ev.r].pop()
+    lines, origin, expect_hop = [f"init {n} {cfg.routing} {cfg.ppn}"], [None], {}
+    issue = {r: [] for r in range(n)}       # stack: an async may run handlers (which issue asyncs) before it packs
+    bcwin = {r: [] for r in range(n)}
+    exwin = {r: [] for r in range(n)}
+    chan = {}            # (src, dst) -> list of parsed physical buffers in flight
+    walk = {r: None for r in range(n)}
+    try:
+        for (t, src, x) in events:
+            if src == "w":
+                kind, d = x
+                last_isend[int(d["r"])] = d
+                continue
+            ev = x
+            r, k = ev.r, ev.kind
+            if k == "A":
+                issue[r].append(["A", int(ev.f[0]), int(ev.f[1])])
+            elif k == "MC":
+                issue[r].append(["MC", int(ev.f[0]), [int(z) for z in ev.f[2].split(",") if z != ""], 0])
+            elif k in ("a", "mc"):
+                if issue[r]:
+                    issue[r].pop()
+            elif k == "BC":
+                bcwin[r].append([int(ev.f[0]), len(exwin[r])])
+            elif k == "bc":
+                if bcwin[r]:
+                    bcwin[r].pop()
+            elif k == "k:pk":
+                it = issue[r][-1] if issue[r] else None
+                if it is None:
+                    bad(f"pack hook without an issuing call at {ev!r}")
+                    return
+                if it[0] == "A":
+                    u, dest, kk = it[1], it[2], 0
+                else:
+                    u, dest, kk = it[1], it[2][it[3]], 100 + it[3]
+                    it[3] += 1
+                lines.append(f"async {r} {u} {kk} {dest} 0")
+                origin.append(ev)
+                expect_hop[len(lines) - 1] = int(ev.f[0])
+            elif k == "k:qm":
+                # a leg queued directly by async_bcast (BC window opened at the current handler depth), else a leg
+                # forwarded by the broadcast's own handler (uid = the X event of the enclosing handler window)
+                if bcwin[r] and bcwin[r][-1][1] == len(exwin[r]):
+                    u = bcwin[r][-1][0]
+                else:
+                    u = exuid.get(exwin[r][-1]) if exwin[r] else None
+                if u is None:
+                    bad(f"broadcast leg queued outside any broadcast context at {ev!r}")
+                    return
+                dest = int(ev.f[0])
+                lines.append(f"async {r} {u} {500 + dest} {dest} 1")
+                origin.append(ev)
+                expect_hop[len(lines) - 1] = dest
+            elif k == "k:fsb":
+                d = last_isend.get(r)
+                if d is None or int(d["bytes"]) != int(ev.f[1]) or int(d["dst"]) != int(ev.f[0]):
+                    bad(f"flush hook {ev!r} does not match the last MPI send {d and {kk: d[kk] for kk in ('dst', 'bytes')}}")
+                    return
+                msgs = _parse_payload(d.get("data", ""), routed)
+                chan.setdefault((r, int(ev.f[0])), []).append(msgs)
+                lines.append(f"isend {r} {ev.f[0]} " + (",".join(str(m[0]) for m in msgs) or "-"))
+                origin.append(ev)
+            elif k == "k:hnr+":
+                srcr = int(ev.f[1])
+                q = chan.get((srcr, r), [])
+                if not q:
+                    bad(f"receive at {ev!r} but nothing in flight from {srcr} to {r}")
+                    return
+                msgs = q.pop(0)
+                if sum(m[3] for m in msgs) != int(ev.f[0]):
+                    bad(f"received {ev.f[0]} bytes from {srcr} but the oldest message in flight has {sum(m[3] for m in msgs)} (overtaking?)")
+                    return
+                walk[r] = list(msgs)
+                lines.append(f"recv {r} {srcr} " + (",".join(str(m[0]) for m in msgs) or "-"))
+                origin.append(ev)
+            elif k == "k:ex+":
+                exwin[r].append(ev.t)
+                if not walk[r]:
+                    bad(f"handler started at {ev!r} outside a received buffer")
+                    return
+                m = walk[r].pop(0)
+                lines.append(f"execu {r} {m[0]}")
+                origin.append(ev)
+            elif k == "k:ex-":
+                if exwin[r]:
+                    exwin[r].pop()
+            elif k == "k:fw":
+                if not walk[r]:
+                    bad(f"forward at {ev!r} outside a received buffer")
+                    return
+                m = walk[r].pop(0)
+                lines.append(f"fwdu {r} {m[0]}")
+                origin.append(ev)
+                expect_hop[len(lines) - 1] = ("fw", int(ev.f[1]))
+            elif k == "k:hnr-":
+                if walk[r]:
+                    bad(f"receive processing ended at {ev!r} with {len(walk[r])} messages of the buffer unprocessed")
+                    return
+                walk[r] = None
+                lines.append(f"recvend {r}")
+                origin.append(ev)
+    except ValueError as ex:
+        bad("physical buffer not parseable: " + str(ex))
+        return
+    lines.append("final")
+    origin.append(None)
+    outs = C.model("deliver", lines)
+    local.count("deliver_labels", len(lines))
+    for idx, (line, o) in enumerate(zip(lines, outs)):
+        if line == "final":
+            if "quiescent=true" not in o:
+                bad(f"run ended but the model is not quiescent: {o}")
+            continue
+        if not o.startswith("ok"):
+            bad(f"label '{line[:200]}' -> {o[:300]} at {origin[idx]!r}")
+            return
+        if idx in expect_hop and isinstance(expect_hop[idx], int) and o.startswith("ok hop="):
+            if int(o.split("=")[1]) != expect_hop[idx]:
+                bad(f"label '{line}': model buffers it for hop {o.split('=')[1]}, the code for hop {expect_hop[idx]} at {origin[idx]!r}")
+                return
 
 
 def barrier(local, sc, cfg, hev, wire):
